@@ -30,7 +30,19 @@ KINDS = ['full', 'delete', 'delete', 'prompt_total', 'prompt_refuse', 'prompt_re
 def cli_text_check(ctx, variant, r):
     """the command line must say 'Successfully solved!' iff solve() was True and
     otherwise name every diagnostic"""
-    if variant['prompt'] is not None or r.exc is not None:
+    if variant['prompt'] is not None:
+        return
+    if r.exc is not None:
+        # the direct solve aborts (unsupported form, invalid value ...): the command line must not turn that into success
+        if not isinstance(r.exc, (NotImplementedError,)):
+            return
+        with cli.scratch() as d:
+            text = solve.config_to_text(solve.config_from_dict(variant['inputs']))
+            o = cli.solve(d, variant['year'], variant['forms'], input_text=text, solution=True)
+        ctx.count('cli_runs_on_aborting_requests')
+        if o.exc is None:
+            ctx.violation('cli:abort-swallowed', f'Solver.solve({variant["forms"]}) raises {r.exc!r}, but `habutax solve` with the same forms ended without an error and printed '
+                          f'{[l for l in o.stdout.splitlines() if "olve" in l][:1]}', {'variant': variant})
         return
     with cli.scratch() as d:
         text = solve.config_to_text(solve.config_from_dict(variant['inputs']))
@@ -162,6 +174,17 @@ def shard_cli_multiform(ctx, k, payload):
                                         ['1040', 'nc_d-400'], ['nc_d-400', '1040']]))
         p = data.draw(scenario.personas(forms=fs))
         sc, r0 = scenario.build(p, data.draw)
+        if data.draw(st.integers(0, 3)) == 0:
+            # a form this year does not have, requested next to forms it has: the solve aborts, on the command line too
+            bogus = data.draw(st.sampled_from(['1040_sc', '1040_s2', '1040_sd', '8962', '1040_recovery_rebate_credit_wkst' if sc['year'] != 2021 else '1040_se']))
+            pos = data.draw(st.integers(0, len(fs)))
+            v_ = {'kind': 'full', 'year': sc['year'], 'forms': fs[:pos] + [bogus] + fs[pos:], 'inputs': sc['inputs'], 'prompt': None, 'schedule': None}
+            r_ = realcamp.run_variant(v_)
+            ctx.case()
+            ctx.count('cli_multiform:with_unsupported_form')
+            if isinstance(r_.exc, NotImplementedError):
+                ctx.nt({'f': v_['forms'], 'y': sc['year']})
+            cli_text_check(ctx, v_, r_)
         if r0.exc is not None or not r0.verdict:
             ctx.count('cli_multiform:base_not_solved')
             return
